@@ -164,7 +164,11 @@ def hSysU : Handler := fun impl => do
   let fallbackTaken := st.contacts.any fun c => retryHosts.contains c.host
   let final : Option OriginEntry := match rr with | .response e _ => some e | _ => none
   let faulted := match final with | some e => e.readErrAt.isSome | none => false
-  let cls := ""
+  -- finding C04-a: only the FIRST Richie-Routing-Secret line is validated (Header.Get): a valid first line
+  -- lets later unknown ones through, and they reach the internal destination
+  let clientSecrets := headerValues req.headers b!"Richie-Routing-Secret"
+  let firstValid : Bool := match clientSecrets.head? with | some v => secrets.contains v | none => false
+  let cls := if !secretsNil && decide (clientSecrets.length ≥ 2) && firstValid && !clientSecrets.all secrets.contains then "C04-a" else ""
   let oracle :=
     match obs? with
     | .error _ => "na"
@@ -177,7 +181,7 @@ def hSysU : Handler := fun impl => do
         (if holdsC03Body req o.contacts then [] else ["bad:C03:method-or-body-not-intact"]) ++
         (let allRules : List Rule := rcs.flatMap fun rc => rc.rule :: rc.retry
          let ruleOfHost (h : Bytes) : Option Bool := (allRules.find? fun r => hostOfDest r.dest == h).map (·.internal)
-         if holdsC04 ruleOfHost secretsNil secrets o.contacts then [] else ["bad:C04:internal-headers-wrong-for-destination-class"]) ++
+         if holdsC04 ruleOfHost secretsNil secrets (headerValues req.headers b!"Richie-Routing-Secret") o.contacts then [] else ["bad:C04:internal-headers-wrong-for-destination-class"]) ++
         (if faulted then [] else
           (if holdsC05Plain req.method final o.view blobTok then [] else ["bad:C05:status-body-or-error-shape"]) ++
           (match final with
@@ -204,6 +208,6 @@ def hSysU : Handler := fun impl => do
   return { model := model, oracle := oracle, cls := if cls = "" then "-" else cls, label := label }
 
 def handlers : List (String × Handler) := [
-  ("sysu", hSysU), ("kf.C03-a", hSysU), ("kf.C01-a", hSysU), ("kf.C20-a", hSysU) ]
+  ("sysu", hSysU), ("kf.C03-a", hSysU), ("kf.C01-a", hSysU), ("kf.C20-a", hSysU), ("kf.C04-a", hSysU) ]
 
 end H.SysU
